@@ -280,6 +280,15 @@ func (m *c13Model) step(op c13Op, c, r time.Time) c13Exp {
 	case "Set":
 		m.put(key, op.Val, op.TTL, c, r)
 	case "SetList":
+		if l, ok := func() ([]any, bool) {
+			if e == nil {
+				return nil, false
+			}
+			l, ok := e.val.([]any)
+			return l, ok
+		}(); ok && len(l) > 0 && len(op.List) == 0 {
+			exp.Mark = "setlist-empty-over-nonempty"
+		}
 		m.put(key, c13CopyList(op.List), op.TTL, c, r)
 	case "Delete":
 		delete(m.m, key)
@@ -465,7 +474,11 @@ func c13Apply(s *Storage, op c13Op) (got c13Got) {
 	case "Exists":
 		got.B, err = s.Exists(op.Key)
 	case "SetList":
-		err = s.SetList(op.Key, c13CopyList(op.List), op.TTL)
+		var l []any
+		if op.List != nil {
+			l = c13CopyList(op.List)
+		}
+		err = s.SetList(op.Key, l, op.TTL)
 	case "GetList":
 		var l []any
 		l, err = s.GetList(op.Key)
